@@ -17,7 +17,10 @@ def run(ctx, res):
         kinds[sc["name"]] = {"enum": next((d["name"] for d in ds if d["k"] == "enum"), None),
                              "input": next((d["name"] for d in ds if d["k"] == "input"), None),
                              "scalar": next((d["name"] for d in ds if d["k"] == "scalar"), "Int"),
-                             "root": next((o["type"] for d in ds if d["k"] == "schema" for o in d["ops"] if o["op"] == "query"), "Query")}
+                             "root": next((o["type"] for d in ds if d["k"] == "schema" for o in d["ops"] if o["op"] == "query"), "Query"),
+                             "subroot": next((o["type"] for d in ds if d["k"] == "schema" for o in d["ops"] if o["op"] == "subscription"),
+                                             None if any(d["k"] == "schema" for d in ds) else
+                                             next((d["name"] for d in ds if d["k"] == "object" and d["name"] == "Subscription"), None))}
     for t in triples:
         base = docs[t["doc"] - 1]
         op = G2.OPERATORS[t["operator"] - 1]
